@@ -17,4 +17,10 @@ def ktv (t : Tokens) : String :=
   let (ms, v) := tversion (t.nat "msize") (t.bytes "v")
   s!"rtype=101 rtag=65535 rmsize={ms} rv={hex v} framelen={7 + 4 + 2 + v.length}"
 
+/-- kmsz: after two Tversion exchanges the frame limit is the second negotiated msize
+(min(requested, 4 MiB)); a frame is answered iff it fits -/
+def kmsz (t : Tokens) : String :=
+  let lim := min (t.nat "second") (4 * 1024 * 1024)
+  s!"reply={if t.nat "len" ≤ lim then 1 else 0}"
+
 end P9.Driver
